@@ -228,13 +228,23 @@ class Text(ExcelType):
     native_types = (str,)
     sort_precedence = 1
 
+    @staticmethod
+    def _parse_number(text):
+        # int() and float() also accept 'nan', 'inf', digit separators
+        # ('1_0') and non-ASCII digits, none of which is numeric text.
+        if not all(ch in '0123456789+-.eE' for ch in text.strip()):
+            raise ValueError(text)
+        try:
+            return int(text)
+        except ValueError:
+            number = float(text)
+        if number in (float('inf'), float('-inf')):
+            raise ValueError(text)
+        return number
+
     def __number__(self):
         try:
-            return int(self.value)
-        except ValueError:
-            pass
-        try:
-            return float(self.value)
+            return self._parse_number(self.value)
         except ValueError:
             pass
         # For arithmetic, boolean text is actually interpreted.
@@ -264,7 +274,8 @@ class Text(ExcelType):
 
     def __datetime__(self):
         try:
-            return utils.number_to_datetime(float(self.value))
+            return utils.number_to_datetime(
+                float(self._parse_number(self.value)))
         except (ValueError, OverflowError):
             pass
         try:
